@@ -24,6 +24,7 @@ import (
 	"strings"
 
 	"github.com/nspcc-dev/neo-go/pkg/config"
+	"github.com/nspcc-dev/neo-go/pkg/config/limits"
 	"github.com/nspcc-dev/neo-go/pkg/core"
 	"github.com/nspcc-dev/neo-go/pkg/core/interop"
 	"github.com/nspcc-dev/neo-go/pkg/core/interop/interopnames"
@@ -112,6 +113,15 @@ func buildContract(sender util.Uint160, name string) *neotest.Contract {
 			emit.Opcodes(w, opcode.APPEND)
 			emit.Instruction(w, opcode.JMP, []byte{byte(256 - (1 + 5 + 2 + 1 + 1 + 5 + 1))})
 			emit.Opcodes(w, opcode.LDLOC0, opcode.RET)
+		}},
+		// putN(key, n): stores a value of n zero bytes built inside the VM (a value at the MaxStorageValueLen
+		// limit does not fit into a transaction script)
+		{"putN", []smartcontract.ParamType{ba, in}, smartcontract.VoidType, false, func(w *io.BinWriter) {
+			emit.Instruction(w, opcode.INITSLOT, []byte{0, 2})
+			emit.Opcodes(w, opcode.LDARG1, opcode.NEWBUFFER, opcode.LDARG0)
+			emit.Syscall(w, interopnames.SystemStorageGetContext)
+			emit.Syscall(w, interopnames.SystemStoragePut)
+			emit.Opcodes(w, opcode.RET)
 		}},
 		// wget(key, value, delKey, readKey): the invocation writes and deletes first, then reads one key
 		{"wget", []smartcontract.ParamType{ba, ba, ba, ba}, ba, false, func(w *io.BinWriter) {
@@ -617,7 +627,46 @@ func callScript(h util.Uint160, method string, args ...any) []byte {
 
 var alphabet = []byte{0x01, 0x02, 0x10, 0x12}
 
+// The limit family: keys that sit at the length limits of the stack they pass through.
+// limitStem has 62 bytes; limitKey(n, ...) has n = 63, 64 (= limits.MaxStorageKeyLen: with the 4-byte
+// contract id the trie key has exactly mpt.MaxKeyLength = 68 bytes) or 65 bytes (refused by Storage.Put).
+var limitStem = bytes.Repeat([]byte{0x12}, 62)
+
+func limitKey(n int, suffix ...byte) []byte {
+	k := append(bytes.Clone(limitStem), suffix...)
+	for len(k) < n {
+		k = append(k, 0x01)
+	}
+	return k[:n]
+}
+
+func genLimitKey(r *prng.R) []byte {
+	n := 63 + r.Intn(2)
+	return limitKey(n, alphabet[r.Intn(2)], alphabet[r.Intn(len(alphabet))])
+}
+
+// lenClass names the length class of a key or prefix (input-distribution counters).
+func lenClass(k []byte) string {
+	switch n := len(k); {
+	case n == 0:
+		return "0"
+	case n == 1:
+		return "1"
+	case n <= 8:
+		return "2-8"
+	case n <= 62:
+		return "9-62"
+	case n <= 65:
+		return fmt.Sprint(n)
+	default:
+		return "66+"
+	}
+}
+
 func genKey(r *prng.R, minLen int) []byte {
+	if r.Chance(1, 9) {
+		return genLimitKey(r)
+	}
 	n := r.Range(minLen, 3)
 	if r.Chance(1, 12) {
 		n = r.Range(4, 9)
@@ -720,6 +769,9 @@ func (g *getRead) line(at string) string {
 
 // expect: the value the read must give on storage dump d.
 func (g *getRead) expect(d dump) string {
+	if len(g.key) > limits.MaxStorageKeyLen {
+		return "fault" // the private DAO's key buffer holds 64 key bytes (dao.go:994-1000)
+	}
 	rk := string(idKey(g.id, g.key))
 	if g.write {
 		if bytes.Equal(g.key, g.wd) {
@@ -831,12 +883,13 @@ func runCase(o *hx.Out, f *hx.Flags, k int, t *tb) {
 
 	// the fixed sample of read-only scripts
 	var reads []read
-	prefixes := [][]byte{{}, {0x01}, {0x01, 0x02}, {0x10}, {0x12, 0x01}, {0x02, 0x02, 0x02}}
+	prefixes := [][]byte{{}, {0x01}, {0x01, 0x02}, {0x10}, {0x12, 0x01}, {0x02, 0x02, 0x02},
+		limitKey(63, 0x01), limitKey(64, 0x01, 0x02), limitKey(65, 0x01, 0x02, 0x10)}
 	// the case's sample of System.Storage.Find invocations (run live at every height, then
 	// historically; both results also go to the Lean driver)
 	var finds []*findRead
 	for i := 0; i < 44; i++ {
-		fr := &findRead{id: ids[0], prefix: prefixes[r.Weighted([]int{6, 4, 2, 4, 1, 1})], opts: genOpts(r)}
+		fr := &findRead{id: ids[0], prefix: prefixes[r.Weighted([]int{6, 4, 2, 4, 1, 1, 2, 2, 1})], opts: genOpts(r)}
 		hash := c.Hash
 		if r.Chance(1, 8) {
 			fr.id, hash = ids[1], c2.Hash
@@ -850,10 +903,29 @@ func runCase(o *hx.Out, f *hx.Flags, k int, t *tb) {
 			if r.Chance(1, 2) {
 				fr.key = append(bytes.Clone(fr.prefix), genKey(r, 0)...)
 			}
+			if len(fr.key) > limits.MaxStorageKeyLen { // the own write must be accepted by Storage.Put
+				fr.key = fr.key[:limits.MaxStorageKeyLen]
+			}
 			fr.script = callScript(hash, "wfind", fr.key, fr.val, fr.del, fr.prefix, fr.opts)
 		} else {
 			fr.script = callScript(hash, "find", fr.prefix, fr.opts)
 		}
+		// the first reads of every case sit at the limits: a 64-byte prefix that is a whole key, a 63-byte
+		// prefix (forwards and backwards), a 65-byte prefix nothing can match
+		switch i {
+		case 0:
+			fr.id, fr.prefix, fr.opts = ids[0], limitKey(64, 0x01, 0x02), big.NewInt(0)
+		case 1:
+			fr.id, fr.prefix, fr.opts = ids[0], limitKey(63, 0x01), big.NewInt(0)
+		case 2:
+			fr.id, fr.prefix, fr.opts = ids[0], limitKey(63, 0x01), big.NewInt(int64(istorage.FindBackwards|istorage.FindKeysOnly|istorage.FindRemovePrefix))
+		case 3:
+			fr.id, fr.prefix, fr.opts = ids[0], limitKey(65, 0x01, 0x02, 0x10), big.NewInt(0)
+		}
+		if i < 4 {
+			fr.script = callScript(c.Hash, "find", fr.prefix, fr.opts)
+		}
+		o.Count("find-prefix-len:" + lenClass(fr.prefix))
 		finds = append(finds, fr)
 	}
 	for i := 0; i < 6; i++ {
@@ -876,8 +948,17 @@ func runCase(o *hx.Out, f *hx.Flags, k int, t *tb) {
 			}
 			g.script = callScript(c.Hash, "wget", g.wk, g.wv, g.wd, g.key)
 		} else {
+			switch i {
+			case 0:
+				g.key = limitKey(64, 0x01, 0x02)
+			case 1:
+				g.key = limitKey(63, 0x01)
+			case 2:
+				g.key = limitKey(65, 0x01, 0x02, 0x10)
+			}
 			g.script = callScript(c.Hash, "get", g.key)
 		}
+		o.Count("get-key-len:" + lenClass(g.key))
 		gets = append(gets, g)
 	}
 	roleHash := e.NativeHash(t, nativenames.Designation)
@@ -957,7 +1038,11 @@ func runCase(o *hx.Out, f *hx.Flags, k int, t *tb) {
 						d[string(idKey(fr.id, fr.key))] = fr.val
 						delete(d, string(idKey(fr.id, fr.del)))
 					}
-					if want := expectFind(d, fr.id, fr.prefix, ov); got != want {
+					want := expectFind(d, fr.id, fr.prefix, ov)
+					if len(fr.prefix) > limits.MaxStorageKeyLen {
+						want = "fault" // the private DAO's key buffer holds 64 key bytes (dao.go:994-1000)
+					}
+					if got != want {
 						o.Fail("find-live-mismatch", k, "height %d id %d prefix %x opts %d: got %s want %s", h, fr.id, fr.prefix, ov, got, want)
 					}
 					o.Count("find-live:oracle")
@@ -1015,7 +1100,8 @@ func runCase(o *hx.Out, f *hx.Flags, k int, t *tb) {
 
 	nBlocks := r.Range(8, 25)
 	live := map[string]bool{}
-	var usedKeys [][]byte
+	// the limit family is part of the keys the blocks write, rewrite and delete
+	usedKeys := [][]byte{limitKey(64, 0x01, 0x02), limitKey(63, 0x01), limitKey(64, 0x01, 0x10)}
 	commitBlock := func(txs []*transaction.Transaction) {
 		e.AddNewBlock(t, txs...)
 		record()
@@ -1024,6 +1110,11 @@ func runCase(o *hx.Out, f *hx.Flags, k int, t *tb) {
 			return
 		}
 		cur := recs[h].d
+		for kk, v := range cur {
+			if strings.HasPrefix(kk, string(idKey(ids[0], nil))) && (len(kk) > 4+limits.MaxStorageKeyLen || len(v) > limits.MaxStorageValueLen) {
+				o.Fail("over-limit-item-stored", k, "height %d: key of %d bytes, value of %d bytes", h, len(kk)-4, len(v))
+			}
+		}
 		emitBatch(h, prev, cur)
 		emitFinds(h)
 		prev = cur
@@ -1051,8 +1142,18 @@ func runCase(o *hx.Out, f *hx.Flags, k int, t *tb) {
 						o.Count("op:del-present")
 					}
 				} else {
-					emit.AppCall(w.BinWriter, cc.Hash, "put", callflag.All, key, genVal(r))
+					val := genVal(r)
+					if r.Chance(1, 40) {
+						emit.AppCall(w.BinWriter, cc.Hash, "putN", callflag.All, key, limits.MaxStorageValueLen)
+						o.Count("put-val-len:max")
+					} else {
+						emit.AppCall(w.BinWriter, cc.Hash, "put", callflag.All, key, val)
+						if len(val) == 0 {
+							o.Count("put-val-len:0")
+						}
+					}
 					o.Count("op:put")
+					o.Count("put-key-len:" + lenClass(key))
 					live[string(key)] = true
 				}
 			}
@@ -1062,6 +1163,18 @@ func runCase(o *hx.Out, f *hx.Flags, k int, t *tb) {
 			}
 			tx := e.PrepareInvocation(t, w.Bytes(), []neotest.Signer{e.Validator})
 			txs = append(txs, tx)
+		}
+		// one byte over a limit: Storage.Put refuses, the transaction faults, nothing is stored
+		if r.Chance(1, 6) {
+			w := io.NewBufBinWriter()
+			if r.Chance(2, 3) {
+				emit.AppCall(w.BinWriter, c.Hash, "put", callflag.All, limitKey(65, 0x01, 0x02, alphabet[r.Intn(len(alphabet))]), []byte{0x65})
+				o.Count("op:put-key-65-refused")
+			} else {
+				emit.AppCall(w.BinWriter, c.Hash, "putN", callflag.All, genKey(r, 1), limits.MaxStorageValueLen+1)
+				o.Count("op:put-val-over-refused")
+			}
+			txs = append(txs, e.PrepareInvocation(t, w.Bytes(), []neotest.Signer{e.Validator}))
 		}
 		if r.Chance(1, 4) {
 			role := roles[r.Intn(len(roles))]
@@ -1125,6 +1238,12 @@ func runCase(o *hx.Out, f *hx.Flags, k int, t *tb) {
 				gk = append(gk, present[r.Intn(len(present))])
 			}
 			gk = append(gk, genKey(r, 1))
+			for _, key := range present {
+				if len(key) >= 63 {
+					gk = append(gk, key)
+					break
+				}
+			}
 			for _, key := range gk {
 				pend = append(pend, pending{h: h, fi: -1, key: key, script: callScript(c.Hash, "get", key)})
 			}
@@ -1185,6 +1304,16 @@ func runCase(o *hx.Out, f *hx.Flags, k int, t *tb) {
 				o.Count("deferred:get-" + which)
 			}
 		}
+	}
+	if corpus {
+		// the corpus case starts with the limit family: a 64-byte key with the longest value, a 63-byte key
+		// that is a prefix of it with the empty value, a sibling 64-byte key
+		w := io.NewBufBinWriter()
+		emit.AppCall(w.BinWriter, c.Hash, "putN", callflag.All, limitKey(64, 0x01, 0x02), limits.MaxStorageValueLen)
+		emit.AppCall(w.BinWriter, c.Hash, "put", callflag.All, limitKey(63, 0x01), []byte{})
+		emit.AppCall(w.BinWriter, c.Hash, "put", callflag.All, limitKey(64, 0x01, 0x10), []byte{0x64})
+		commitBlock([]*transaction.Transaction{e.PrepareInvocation(t, w.Bytes(), []neotest.Signer{e.Validator})})
+		deferredProbe()
 	}
 	for b := 0; b < nBlocks; b++ {
 		addRandomBlock()
@@ -1490,7 +1619,11 @@ func runCase(o *hx.Out, f *hx.Flags, k int, t *tb) {
 					exp = exp[:maxN]
 				}
 				if err != nil {
-					// Find reports an error when the prefix path does not exist in the trie at all.
+					// Find reports an error when the prefix path does not exist in the trie at all, and
+					// refuses prefix / from lengths beyond MaxKeyLength (trie.go:592-597).
+					if len(full) > mpt.MaxKeyLength || len(from) > mpt.MaxKeyLength-len(full) {
+						continue
+					}
 					if len(want) != 0 {
 						o.Fail("findstates-error", k, "height %d prefix %x from %x: %v (expected %d results)", h, full, from, err, len(exp))
 					}
